@@ -47,6 +47,7 @@ fn determinism(prop: Option<&str>) -> i32 {
                 deadline: None,
                 keep_per_seed: true,
                 directed,
+                known: vec![],
             });
             maps.push(agg.per_seed);
         }
